@@ -135,6 +135,24 @@ def access_lines(codes):
     return out
 
 
+def fault_targets(codes):
+    """[qualname, line] pairs where an interrupt separates two steps of an update of shared state: the access
+    lines of the critical functions and the line that follows each of them (an exception raised at the LINE
+    event of line L means L itself did not run)."""
+    crit = critical_codes(codes)
+    acc = access_lines(crit)
+    out = set()
+    for c in crit:
+        lines = sorted({l for (_, _, l) in c.co_lines() if l})
+        mine = {l for (cc, l) in acc if cc is c}
+        for i, l in enumerate(lines):
+            if l in mine:
+                out.add((c.co_qualname, l))
+                if i + 1 < len(lines):
+                    out.add((c.co_qualname, lines[i + 1]))
+    return sorted(out)
+
+
 def critical_codes(codes):
     """Cache-critical functions: everything in operator_dict.py plus the lazily filled tables, the
     cached properties and `register`.  Chosen by file / qualname at run time."""
@@ -399,7 +417,7 @@ class Sim:
     def begin_op(self, t, index, fault=None):
         t.op = index
         t.op_steps = 0
-        t.fault = dict(fault, seen=fault.get('anchor') is None, count=0, fired=False) if fault else None
+        t.fault = dict(fault, seen=fault.get('anchor') is None, count=0, fired=False, hits=0) if fault else None
 
     def end_op(self, t):
         f = t.fault
@@ -470,12 +488,24 @@ class Sim:
             raise SimAbort()
         f = t.fault
         if f is not None and not f['fired']:
-            self._maybe_fault(t, f, code)
+            self._maybe_fault(t, f, code, line)
         nxt = self._choose(t, code, line)
         if nxt is not t:
             self._switch(t, nxt, code, line)
 
-    def _maybe_fault(self, t, f, code):
+    def _maybe_fault(self, t, f, code, line=None):
+        if f.get('line'):
+            # targeted fault: the nth time this thread reaches one particular source line during the operation
+            if code is None or line != f['line'][1] or code.co_qualname != f['line'][0]:
+                return
+            f['hits'] += 1
+            if f['hits'] < f.get('nth', 1):
+                return
+            if self._stack_clean(sys._getframe(3)):
+                self._fire(t, f, code)
+            else:
+                self.fault_skipped_dirty += 1
+            return
         if not f['seen']:
             if code is not None and code.co_qualname == f['anchor']:
                 f['seen'] = True
@@ -483,18 +513,21 @@ class Sim:
                 return
         if f['count'] >= f['skip']:
             if code is not None and self._stack_clean(sys._getframe(3)):
-                f['fired'] = True
-                stack = []
-                fr = sys._getframe(3)
-                while fr is not None and len(stack) < 40 and not fr.f_code.co_filename.startswith(HARNESS_DIR):
-                    if fr.f_code.co_filename.startswith(self.kdir):
-                        stack.append(fr.f_code.co_qualname)
-                    fr = fr.f_back
-                self.faults_fired.append((t.tid, t.op, f['kind'], t.op_steps, tuple(stack)))
-                self.h.update(b'F' + f['kind'].encode())
-                raise FAULT_EXC[f['kind']](f'injected {f["kind"]}')
+                self._fire(t, f, code, depth=4)
             self.fault_skipped_dirty += 1
         f['count'] += 1
+
+    def _fire(self, t, f, code, depth=4):
+        f['fired'] = True
+        stack = []
+        fr = sys._getframe(depth)
+        while fr is not None and len(stack) < 40 and not fr.f_code.co_filename.startswith(HARNESS_DIR):
+            if fr.f_code.co_filename.startswith(self.kdir):
+                stack.append(fr.f_code.co_qualname)
+            fr = fr.f_back
+        self.faults_fired.append((t.tid, t.op, f['kind'], t.op_steps, tuple(stack)))
+        self.h.update(b'F' + f['kind'].encode())
+        raise FAULT_EXC[f['kind']](f'injected {f["kind"]}')
 
     def _stack_clean(self, frame):
         """True when every Python frame between the monitored line and the harness is kingdon,
